@@ -29,6 +29,7 @@ import traceback
 
 VERIF = os.path.dirname(os.path.dirname(os.path.abspath(__file__)))
 KYUPY_SRC = os.environ.get('KYUPY_SRC', '/repo/src')
+EVID = os.environ.get('VERIF_EVIDENCE_DIR', os.path.join(VERIF, 'evidence'))
 NPROC = int(os.environ.get('VERIF_NPROC', str(min(16, os.cpu_count() or 1))))
 
 
@@ -93,8 +94,9 @@ class Result:
         for k, v in other.counters.items():
             self.counters[k] = self.counters.get(k, 0) + v
         self.violations.extend(other.violations)
-        if len(self.samples) < 6:
-            self.samples.extend(other.samples[:6 - len(self.samples)])
+        for smp in other.samples:
+            if len(self.samples) < 6 or (isinstance(smp, dict) and 'harness_error' in smp and len(self.samples) < 12):
+                self.samples.append(smp)
         self.states += other.states
         self.transitions += other.transitions
         self.validated += other.validated
@@ -156,10 +158,10 @@ def is_known(prop, key, known):
 
 
 def write_evidence(prop, tier, seed, level, coverage, assumptions, wall, nviol):
-    os.makedirs(os.path.join(VERIF, 'evidence'), exist_ok=True)
+    os.makedirs(EVID, exist_ok=True)
     ev = {'property_id': prop, 'tier': tier, 'seed': seed, 'level': level, 'coverage': coverage,
           'assumptions': assumptions, 'wall_s': round(wall, 3), 'violations': nviol}
-    p = os.path.join(VERIF, 'evidence', f'{prop}.json')
+    p = os.path.join(EVID, f'{prop}.json')
     with open(p + '.tmp', 'w') as f:
         json.dump(ev, f, indent=1, sort_keys=True, default=str)
     os.replace(p + '.tmp', p)
@@ -220,7 +222,7 @@ def main(mod, argv=None):
         except HarnessError as ex:
             harness_problem = str(ex)
 
-    replay_dir = os.path.join(VERIF, 'evidence', 'replay')
+    replay_dir = os.path.join(EVID, 'replay')
     os.makedirs(replay_dir, exist_ok=True)
     for f in os.listdir(replay_dir):
         if f.startswith(prop + '-'):
